@@ -118,6 +118,7 @@ func (c *Collection) StartDCPFeed(
 		debug("%s ended backfill", feed)
 		feed.events.push(&sgbucket.FeedEvent{Opcode: sgbucket.FeedOpEndBackfill})
 	}
+	verifPoint("feed.afterBackfill", c.bucket.name)
 
 	if args.Dump {
 		feed.events.push(nil) // push an eof
